@@ -356,6 +356,7 @@ impl<const M: usize> Sim<M> {
 
     #[inline]
     pub fn begin(&mut self) {
+        halloc::note_op(&self.cur);
         halloc::op_begin();
     }
     /// Close the window and ingest its events into the ledger (C03 / C07 monitors).
